@@ -214,12 +214,15 @@ def eval_cycle_case(case):
         if case['path'] == 'cb': ls.cycle(k, lambda *a: None)
         else: ls.cycle(k)
     order = ','.join(str(n.index) for n in c.topological_order()) or '~'
-    ans, cert = common.run_driver([f"cycle {m} {int(case['strip'])} {k} {order} {fmt_rows(in0)} {fmt_rows(in1)} {circ.dump_net(c)}",
-                                   f"cyclecert {','.join(str(int(x)) for x in ls.c_locs)} {circ.dump_net(c)}"])
+    ans, cert, _, fk = common.run_driver([f"cycle {m} {int(case['strip'])} {k} {order} {fmt_rows(in0)} {fmt_rows(in1)} {circ.dump_net(c)}",
+                                          f"cyclecert {order} {','.join(str(int(x)) for x in ls.c_locs)} {circ.dump_net(c)}",
+                                          f"net {circ.dump_net(c)}", f"forkcert {order}"])
+    if not fk.startswith('forks=true'): return False, {'forkcert': fk[:60]}, {'forkcert': 'forks=true'}   # hypothesis of cycle_strip_irrelevant
     # side conditions of C01.cycle_on_memory on the REAL c_locs: `zero` (state element with open data pin captures the row of the
-    # constant slot) must hold on every circuit; `outs` fails exactly for circuits with a state element without output pin list
+    # constant slot) must hold on every circuit; `outs` fails exactly for circuits with a state element without output pin list;
+    # `cap` (C01.cycle_strip_irrelevant: the real order contains the driver of every captured line) must hold on every circuit
     case['_mem_thm'] = cert
-    if 'zero=1' not in cert: return False, {'cyclecert': cert}, {'cyclecert': 'zero=1'}
+    if 'zero=1' not in cert or 'cap=1' not in cert: return False, {'cyclecert': cert}, {'cyclecert': 'zero=1 cap=1'}
     if ('outs=1' in cert) != all(len(n.outs) > 0 for n in c.s_nodes[len(c.io_nodes):]): return False, {'cyclecert': cert}, 'outs flag'
     parts = ans.split(';')
     if len(parts) != 5: return False, {'driver': ans[:200]}, None
